@@ -207,6 +207,14 @@ fn hdr_bits(h: &shapefile::header::Header) -> [u64; 8] {
 /// C02 + C04 + C05 (bytes) + C18 (content length) on the device content left by a writer.
 /// Returns the decoded file when well-formed.
 pub fn check_bytes(ctx: &mut Ctx, ty: i32, shp: &[u8], shx: Option<&[u8]>, written: &[&Geom], site: &str) -> Option<DecFile> {
+    if let Some(shx) = shx {
+        // the index on its own terms, whatever the strict decoder makes of the .shp
+        if shx.len() >= 100 {
+            if let Err(e) = check_index_entries(shp, shx) {
+                ctx.fail("C04", "index-points-at-record-headers", site, e);
+            }
+        }
+    }
     let dec = match decode(shp) {
         Ok(d) => d,
         Err(e) => {
@@ -580,6 +588,52 @@ fn check_c06_on(ctx: &mut Ctx, ty: i32, shp: &[u8], n: usize, rstack: StackCfg, 
             (Err(p), _) | (_, Err(p)) => ctx.fail("C06", "panic", p.site(), format!("{}: {}", pair, p.text())),
         }
     }
+    // the bulk conversion of a vector of several kinds stops at its *first* mismatch: the file's own
+    // shapes followed by two shapes of two other kinds, for every ordered pair of kinds of a small pool
+    if shapes.len() <= 8 && TYPES.contains(&ty) {
+        let pool = || -> Vec<Shape> {
+            vec![
+                Shape::NullShape,
+                Shape::Point(shapefile::Point::new(1.0, 2.0)),
+                Shape::PointM(shapefile::PointM::new(1.0, 2.0, 3.0)),
+                Shape::Polyline(shapefile::Polyline::new(vec![shapefile::Point::new(0.0, 0.0), shapefile::Point::new(1.0, 1.0)])),
+            ]
+        };
+        for xi in 0..4usize {
+            for yi in 0..4usize {
+                if xi == yi {
+                    continue;
+                }
+                for lead in [true, false] {
+                    let mut v: Vec<Shape> = if lead { shapes.iter().map(build_from_geom_shape).collect() } else { vec![] };
+                    if !lead {
+                        // one shape of the requested type in front, then the two others
+                        if let Some(f) = shapes.first() {
+                            v.push(build_from_geom_shape(f));
+                        }
+                    }
+                    v.push(pool().swap_remove(xi));
+                    v.push(pool().swap_remove(yi));
+                    let codes: Vec<i32> = v.iter().map(variant_code).collect();
+                    let want = codes.iter().copied().find(|c| *c != ty).map(|c| RErr::Mismatch { requested: ty, actual: c });
+                    match convert_typed(v, ty) {
+                        Ok(Ok(got)) => {
+                            if want.is_some() {
+                                ctx.fail("C06", "bulk-mixed-first-mismatch", type_name(ty), format!("convert_shapes_to_vec_of::<{}>() of kinds {:?} = Ok({} shapes)", type_name(ty), codes, got.len()));
+                            }
+                        }
+                        Ok(Err(e)) => {
+                            if Some(&e) != want.as_ref() {
+                                ctx.fail("C06", "bulk-mixed-first-mismatch", type_name(ty), format!("convert_shapes_to_vec_of::<{}>() of kinds {:?} = Err({:?}), the first mismatch is {:?}", type_name(ty), codes, e, want));
+                            }
+                        }
+                        Err(p) => ctx.fail("C06", "panic", p.site(), p.text()),
+                    }
+                }
+            }
+        }
+        ctx.stats.reach("c06-bulk-mixed-kinds");
+    }
     // a typed iteration over records of another type, continued past the first error, never yields a
     // value of the requested type, and every mismatch it reports names (S, T)
     if n > 0 {
@@ -942,7 +996,7 @@ pub fn grid_unit(unit: u64, ctx: &mut Ctx, ctl: &mut crate::scn::UnitCtl) {
     let nmin = if is_polyline(ty) { 2 } else { 1 };
     for nparts in 1..=pmax {
         for npts in nmin..=nmax {
-            for (si, stack) in [StackCfg::Direct, StackCfg::Buf(7), StackCfg::Buf(8192)].iter().enumerate() {
+            for (si, stack) in [StackCfg::Direct, StackCfg::Buf(7), StackCfg::Buf(8192), StackCfg::WriteBack].iter().enumerate() {
                 for with_shx in [true, false] {
                     let shapes = vec![
                         grid_spec(ty, nparts, npts, 1),
@@ -1029,6 +1083,14 @@ pub fn large_unit(unit: u64, ctx: &mut Ctx, ctl: &mut crate::scn::UnitCtl) {
                 if let Some(last) = shapes.last_mut() {
                     last.parts[0].pts[0] = [(-7.5e8f64).to_bits(), 6.5e8f64.to_bits(), 5.5e8f64.to_bits(), (-4.5e8f64).to_bits()];
                 }
+                scns.push(mk(shapes, i % 2 == 0, StackCfg::Buf(8192), StackCfg::Buf(8192), false));
+            }
+        }
+        7 => {
+            // every multi-vertex type: one part of 2^16 + 7 points (not a multiple of any block size a
+            // writer may use) followed by a small record
+            for (i, ty) in [3, 5, 8, 13, 15, 18, 23, 25, 28, 31].iter().enumerate() {
+                let shapes = vec![grid_spec(*ty, 1, 65_543, 11), grid_spec(*ty, 1, 3, 60)];
                 scns.push(mk(shapes, i % 2 == 0, StackCfg::Buf(8192), StackCfg::Buf(8192), false));
             }
         }
